@@ -16,7 +16,7 @@ import sys
 import time
 
 VERIF = os.path.dirname(os.path.dirname(os.path.abspath(__file__)))
-ALL = [f"C{n:02d}" for n in range(1, 21)]
+ALL = [c for c in (os.environ.get("VERIF_ONLY") or ",".join(f"C{n:02d}" for n in range(1, 21))).split(",") if c]
 
 
 def sh(cmd, **kw):
@@ -26,7 +26,8 @@ def sh(cmd, **kw):
 def one(d):
     d = os.path.abspath(d)
     name = os.path.basename(d)
-    scratch = f"/root/scratch/sound-{name}-{os.getpid()}"
+    # a fixed scratch path (per slot) keeps the dependency builds of the overriding copy warm between changes
+    scratch = "/root/scratch/sound-slot-" + os.environ.get("VERIF_SLOT", "0")
     repo = os.path.join(scratch, "repo")
     shutil.rmtree(scratch, ignore_errors=True)
     os.makedirs(scratch)
@@ -55,8 +56,9 @@ def one(d):
     meta["alarms"] = alarms
     json.dump(meta, open(os.path.join(d, "meta.json"), "w"), indent=1)
     shutil.rmtree(scratch, ignore_errors=True)
-    for t in glob.glob(os.path.join(VERIF, "mc", "target*-mut-" + hashlib.md5(repo.encode()).hexdigest()[:8])):
-        shutil.rmtree(t, ignore_errors=True)
+    if os.environ.get("VERIF_LAST"):  # the caller says this was the last change for this slot
+        for t in glob.glob(os.path.join(VERIF, "mc", "target*-mut-" + hashlib.md5(repo.encode()).hexdigest()[:8])):
+            shutil.rmtree(t, ignore_errors=True)
     print(f"{name}: tests={meta['repository_tests']} alarms={alarms} "
           f"{[meta['checks'][c]['signatures'][:2] for c in alarms]}", flush=True)
 
